@@ -35,7 +35,7 @@ func runC06(c *Ctx, ev *Evidence) ([]Violation, error) {
 	}
 	expected := func(sv *StepVars) *smt.Term {
 		one := smt.IntC(1)
-		e1 := smt.Implies(kindIs(sv.Kind, 1), smt.And(sv.Written, smt.Eq(sv.NWrites, one)))
+		e1 := smt.Implies(kindIs(sv.Kind, 1), smt.Or(sv.Written, smt.And(sv.RawWrite, sv.RawIsText)))
 		e2 := smt.Implies(isTag(sv.Kind), smt.And(smt.Not(sv.RawWrite), smt.Le(sv.NWrites, one),
 			smt.Implies(smt.Not(sv.Written), smt.Eq(sv.Space, ps.AddSpaces)), smt.Implies(sv.Written, smt.Not(sv.Space))))
 		e3 := smt.And(smt.Implies(kindIs(sv.Kind, 5), smt.And(smt.Not(sv.RawWrite), smt.Not(sv.Space), smt.Le(sv.NWrites, one))),
@@ -62,7 +62,7 @@ func runC06(c *Ctx, ev *Evidence) ([]Violation, error) {
 	ev.AddTransitions(len(lr.T.Paths))
 	ev.Sample(map[string]interface{}{"query": "C06-inductive: Inv(pre), class, token precondition, one step: text token not written exactly once escaped / tag writes something else than itself or the strip space / Inv(post) fails", "verdict": r.Status.String(), "solver": r.Solver, "seconds": r.Seconds})
 	rv, _ := lr.inductive("C06-reach", nil, func(sv *StepVars) *smt.Term { return smt.And(append(class, inv(sv.Pre), tokPre(sv))...) },
-		func(sv *StepVars) *smt.Term { return smt.And(kindIs(sv.Kind, 1), sv.Written) }, timeout)
+		func(sv *StepVars) *smt.Term { return smt.And(kindIs(sv.Kind, 1), smt.Or(sv.Written, sv.RawWrite)) }, timeout)
 	ev.Query("C06-reach", rv)
 	if rv.Status != smt.Sat {
 		ev.Inconclusive("vacuity witness 'a text token is written' not satisfiable: " + rv.Status.String())
@@ -71,29 +71,58 @@ func runC06(c *Ctx, ev *Evidence) ([]Violation, error) {
 	case smt.Unsat:
 		return nil, nil
 	case smt.Unknown:
-		ev.Inconclusive("C06 inductive query undecided: " + r.Note)
-		return nil, nil
-	}
-	found, details, replays, err := c.searchWitness(lr, ev, "C06", maxK,
-		func(steps []*StepVars) *smt.Term {
-			as := append([]*smt.Term{}, class...)
-			for _, sv := range steps {
-				as = append(as, tokPre(sv))
+		// the general query is too hard (typically a character-level comparison of a
+		// hand-written escaper): try it with the text fixed to candidate contents
+		hit := false
+		for _, cand := range []string{"\r", "a\rb", "<&>\"'", "x"} {
+			cand := cand
+			rc, _ := lr.inductive("C06-inductive-text="+fmt.Sprintf("%q", cand), nil, func(sv *StepVars) *smt.Term {
+				return smt.And(append(append([]*smt.Term{}, class...), inv(sv.Pre), tokPre(sv), kindIs(sv.Kind, 1), smt.Eq(sv.Data, smt.StrC(cand)))...)
+			}, func(sv *StepVars) *smt.Term { return smt.Not(expected(sv)) }, timeout)
+			ev.Query("C06-inductive-text-candidate", rc)
+			if rc.Status == smt.Sat {
+				hit = true
+				break
 			}
-			return smt.And(as...)
-		},
-		func(steps []*StepVars) *smt.Term {
-			last := steps[len(steps)-1]
-			// only the output-visible part (the invariant is not observable)
-			return smt.Not(expectedVisible(ps, last))
-		},
-		func(w *seqWitness, res map[string]interface{}) (bool, string) {
-			in := decodeTokens(res["in_tokens"])
-			out := decodeTokens(res["out_tokens"])
-			return textOracle(in, out, w.Flags["addSpaces"])
-		}, timeout, nil, 6)
-	if err != nil {
-		return nil, err
+		}
+		if !hit {
+			ev.Inconclusive("C06 inductive query undecided: " + r.Note)
+			return nil, nil
+		}
+	}
+	// candidate text contents make the character-level comparison ground
+	var found []*seqWitness
+	var details []string
+	var replays [][]NativeReq
+	for _, cand := range []string{"", "\r", "a\rb", "<&>\"'", "x"} {
+		cand := cand
+		if len(found) > 0 {
+			break
+		}
+		found, details, replays, err = c.searchWitness(lr, ev, "C06", maxK,
+			func(steps []*StepVars) *smt.Term {
+				as := append([]*smt.Term{}, class...)
+				for _, sv := range steps {
+					as = append(as, tokPre(sv))
+					if cand != "" {
+						as = append(as, smt.Implies(kindIs(sv.Kind, 1), smt.Eq(sv.Data, smt.StrC(cand))))
+					}
+				}
+				return smt.And(as...)
+			},
+			func(steps []*StepVars) *smt.Term {
+				last := steps[len(steps)-1]
+				// only the output-visible part (the invariant is not observable)
+				return smt.Not(expectedVisible(ps, last))
+			},
+			func(w *seqWitness, res map[string]interface{}) (bool, string) {
+				in := decodeTokens(res["in_tokens"])
+				out := decodeTokens(res["out_tokens"])
+				return textOracle(in, out, w.Flags["addSpaces"])
+			}, timeout, nil, 6)
+		if err != nil {
+			return nil, err
+		}
 	}
 	if len(found) == 0 {
 		ev.Inconclusive(fmt.Sprintf("C06: the inductive step has a counterexample but no replayable token sequence of length <= %d was found (possibly an unreachable pre-state: strengthen the invariant)", maxK))
@@ -108,7 +137,7 @@ func runC06(c *Ctx, ev *Evidence) ([]Violation, error) {
 
 func expectedVisible(ps *PolicySyms, sv *StepVars) *smt.Term {
 	one := smt.IntC(1)
-	e1 := smt.Implies(kindIs(sv.Kind, 1), smt.And(sv.Written, smt.Eq(sv.NWrites, one)))
+	e1 := smt.Implies(kindIs(sv.Kind, 1), smt.Or(sv.Written, smt.And(sv.RawWrite, sv.RawIsText)))
 	e2 := smt.Implies(isTag(sv.Kind), smt.And(smt.Not(sv.RawWrite), smt.Le(sv.NWrites, one),
 		smt.Implies(smt.Not(sv.Written), smt.Eq(sv.Space, ps.AddSpaces)), smt.Implies(sv.Written, smt.Not(sv.Space))))
 	e3 := smt.And(smt.Implies(kindIs(sv.Kind, 5), smt.And(smt.Not(sv.RawWrite), smt.Not(sv.Space), smt.Le(sv.NWrites, one))),
